@@ -100,6 +100,12 @@ func RegisterTypeMigration(previousPkgPath, previousTypeName string, newType err
 	if f, ok := backwardRegistry[newKey]; ok {
 		panic(fmt.Errorf("migration to type %q already registered (from %q)", newKey, f))
 	}
+	// If the previous name is itself the new name of an earlier
+	// migration (chained renames registered oldest first), use the
+	// original name: the key on the wire is always the first name.
+	if origKey, ok := backwardRegistry[prevKey]; ok {
+		prevKey = origKey
+	}
 	backwardRegistry[newKey] = prevKey
 	// If any other key was registered as a migration from newKey,
 	// we'll forward those as well.
